@@ -1,7 +1,9 @@
 """C09 — retention decisions follow the documented keep rules.
-Stages: regenerate Extracted.v from forget.rs; build + audit the Coq theorems;
-validate the calendar model against jiff; correspondence of the extracted model
-with KeepOptions::apply; oracle = extracted documented spec (doc_apply)."""
+Stages: regenerate Extracted.v from forget.rs / grouping.rs / snapshotfile.rs; build + audit the
+Coq theorems; validate the calendar model against jiff; correspondence of the extracted model
+with KeepOptions::apply, oracle = extracted documented spec (doc_apply); correspondence of the
+command level (Grouped::from_items, ForgetGroups::*) with the extracted pipeline, oracles =
+key classes / documented rules per group / forget ids / delete marks computed from the case."""
 import os, sys, json, calendar, datetime
 import vlib
 from vlib import ROOT, REPO, sh, log
@@ -227,7 +229,7 @@ def parse_result(txt, rmap):
 
 def forget_stage(ctx, model, impl, rmap, broken, only_case=None):
     rng = ctx.rng
-    ncases = 10000 if ctx.thorough() else 1500
+    ncases = 10000 if ctx.thorough() else 1000
     maxn = 60 if ctx.thorough() else 40
     if broken: ncases *= 3
     cases = []
@@ -271,7 +273,7 @@ def forget_stage(ctx, model, impl, rmap, broken, only_case=None):
                 safe_lines.append(forget_line(crit, hdr, snaps) + " -1")
             else:
                 safe_lines.append(ml)
-        model_out = run_lines(model, safe_lines, "forget")
+        model_out = run_lines_par(model, safe_lines, "forget")
         for idx, ((crit, hdr, snaps), (gs, ids, can, fs, fsids, out), mo) in enumerate(zip(cases, parsed, model_out)):
             case = in_lines[idx]
             if out.strip().startswith("panic"):
@@ -369,9 +371,38 @@ def forget_stage(ctx, model, impl, rmap, broken, only_case=None):
     return mism, viol
 
 
+def run_lines_par(exe, lines, mode=None, nproc=4):
+    """the extracted model is the slow side (doc_apply is quadratic over exact integer arithmetic, a few
+    large cases dominate): deal the cases round-robin to up to four processes; output order = input order"""
+    if len(lines) < 200 or nproc < 2:
+        return run_lines(exe, lines, mode)
+    import subprocess
+    chunks, procs = [], []
+    for i in range(nproc):
+        ch = lines[i::nproc]
+        path = os.path.join(vlib.BUILD, "C09", "in_%d_%d.txt" % (os.getpid(), i))
+        open(path, "w").write("\n".join(ch) + "\n")
+        chunks.append((path, len(ch)))
+        procs.append(subprocess.Popen(["nice", "-n", "10", exe, path] + ([mode] if mode else []),
+                                      stdout=subprocess.PIPE, stderr=subprocess.PIPE, text=True))
+    outs = [None] * len(lines)
+    for i, ((path, n), pr) in enumerate(zip(chunks, procs)):
+        try:
+            out, err = pr.communicate(timeout=1800)
+        finally:
+            os.remove(path)
+        res = out.splitlines()
+        if pr.returncode != 0 or len(res) != n:
+            raise RuntimeError("%s failed rc=%s (%d of %d lines)\n%s" % (exe, pr.returncode, len(res), n, err[-2000:]))
+        outs[i::nproc] = res
+    return outs
+
+
 def run(ctx):
     rng = ctx.rng
     cov = ctx.coverage
+    import time as _t
+    stage_t = {}; _t0 = _t.time()
     # 1. facts from the source
     extract_fail = None
     try:
@@ -381,17 +412,24 @@ def run(ctx):
             open(p, "w").write(txt)
     except ExtractError as e:
         extract_fail = str(e)
-        meta = None
+        try:
+            meta = ext.gen_base(REPO)[1]     # the reason strings, so that the correspondence below still reads the output
+        except ExtractError:
+            meta = None
     # 2. theorems
     r = vlib.proof_stage(ctx)
     if extract_fail:
         r["ok"] = False
         r["failures"].append("fact extraction from forget.rs failed: " + extract_fail)
-    cov["trusted_base"] += ["props/C09/extract.py (translator of equal_* predicates, keep_checks rows and is_valid into Extracted.v)",
+    cov["trusted_base"] += ["props/C09/extract.py (translator of equal_* predicates, keep_checks rows, is_valid, group key / order / equality, sort closures, into_forget_ids filter, from_snapshots keep flag into Extracted.v; exact-shape checks of from_items, from_grouped_snapshots_with_retention, must_keep, must_delete)",
                             "jiff civil-time fields and span addition (validated against Calendar.v on every run, not proved)"]
     ctx.assumptions += ["time zones are fixed UTC offsets (TimeZone::fixed); DST transitions of named zones are not modelled",
-                        "instants are whole seconds", "order of snapshots with equal instants is whatever the unstable sort yields; the model is run on the order the implementation produced",
-                        "runs_are_periods has the decidable premise keys_monotone (evaluated on every case; see coverage.keys_monotone_true)"]
+                        "instants are whole seconds",
+                        "the two unstable sorts (Grouped::from_items by group key, KeepOptions::apply by time) return a sorted permutation of their input: theorems quantify over all such functions; the specification is checked on every generated case (grouping_wf)",
+                        "order of snapshots with equal instants is whatever the unstable sort yields; the model is run on the order the implementation produced, and additionally with its own stable sorts whenever times are distinct inside every group",
+                        "keys_monotone (premise of runs_are_periods) is derived for lists sorted by time whose snapshots share one UTC offset (keys_monotone_derived); for mixed offsets it stays a decidable premise evaluated per case (coverage.keys_monotone_true)",
+                        "hostname / label strings are numbers in the model; the harness maps them to strings order-preservingly"]
+    stage_t["proofs"] = round(_t.time() - _t0, 1); _t0 = _t.time()
     # 3. builds
     try:
         model = vlib.build_model("C09")
@@ -406,6 +444,7 @@ def run(ctx):
         for (p, r1, w, r2) in meta["reasons"]:
             rmap[r1.replace(" ", "_")] = "c:" + PN[p]
             rmap[r2.replace(" ", "_")] = "w:" + PN[w]
+    stage_t["builds"] = round(_t.time() - _t0, 1); _t0 = _t.time()
     # 4. calendar validation against jiff
     ncal = 0
     cal_bad = []
@@ -441,6 +480,7 @@ def run(ctx):
             r["failures"].append("calendar model disagrees with jiff on %d of %d cases, e.g. %s" % (len(cal_bad), ncal, cal_bad[0]))
     cov["calendar_cases_vs_jiff"] = ncal
     cov["calendar_exhaustive_days_1900_2400"] = bool(ctx.thorough())
+    stage_t["calendar"] = round(_t.time() - _t0, 1); _t0 = _t.time()
     # 5. correspondence
     ncases = 20000 if ctx.thorough() else 2500
     maxn = 60 if ctx.thorough() else 40
@@ -487,7 +527,7 @@ def run(ctx):
     mism, viol, nontriv, mono_true, hist = [], [], set(), 0, {}
     samples = []
     if model:
-        model_out = run_lines(model, model_lines)
+        model_out = run_lines_par(model, model_lines)
         for idx, ((h, s), ic, mo, ml, order) in enumerate(zip(parsed, impl_canon, model_out, model_lines, orders)):
             mc, _, oracle = mo.partition(" | ")
             hist["snaps_%s" % ("0" if not s else "1-5" if len(s) <= 5 else "6-20" if len(s) <= 20 else ">20")] = hist.get("snaps_%s" % ("0" if not s else "1-5" if len(s) <= 5 else "6-20" if len(s) <= 20 else ">20"), 0) + 1
@@ -522,10 +562,13 @@ def run(ctx):
         sig = classify(case, ic, extra)
         ctx.violation(what, {"case": case, "impl": ic, "expected": extra,
                              "how_to_replay": "echo '<case>' | .cache/target/debug/c09 -   (format: harness/src/bin/c09.rs)"}, signature=sig)
+    stage_t["apply_level"] = round(_t.time() - _t0, 1); _t0 = _t.time()
     # 7. the command level: grouping, retention per group, into_forget_ids, from_snapshots
     fmism, fviol = [], []
     if model and (replay_forget is not None or not ctx.replay):
         fmism, fviol = forget_stage(ctx, model, impl, rmap, not r["ok"], replay_forget)
+    stage_t["forget_level"] = round(_t.time() - _t0, 1)
+    cov["stage_wall_s"] = stage_t
     if fmism and not fviol and not viol:
         ctx.violation("correspondence broken: extracted model of the forget pipeline (grouping / retention per group / into_forget_ids / from_snapshots) disagrees with the implementation (%d cases) although every oracle holds" % len(fmism),
                       {"correspondence": "props/C09 Groups.v vs Grouped::from_items + ForgetGroups", "first": {"case": fmism[0][0], "what": fmism[0][1], "impl": fmism[0][2], "model": fmism[0][3]}}, no_input=True)
